@@ -479,7 +479,13 @@ impl PacketReceiver for IceConn {
                 Some(IceSocketWrapper::TcpStream(_, _, _))
             )
         };
-        if current_remote.port() == 0 || (socket_is_inbound_tcp && current_remote != addr) {
+        // With latching enabled the latch path below decides which source may
+        // become the remote (SSRC-matching RTP only); an unset remote must not
+        // be filled in by whatever datagram happens to arrive first.
+        let latch_owns_remote = self.latch_on_rtp.load(Ordering::Relaxed);
+        if (current_remote.port() == 0 && !latch_owns_remote)
+            || (socket_is_inbound_tcp && current_remote != addr)
+        {
             *self.remote_addr.write() = addr;
         } else if addr != current_remote {
             // Note: We no longer automatically switch the remote address just by receiving
